@@ -87,15 +87,7 @@ def run(ctx):
     for names, env, root, _ in g3:
         cases.append(("c03-graph", {"schema": C3.print_node(env, root), "types": [[nm, C3.print_node(env, env[nm])] for nm in names]}, None, "cutoff"))
     lines = [json.dumps(dict(c, ops=[["check"], ["example"], ["valex"], ["exampleagain"]])) for _, c, _, _ in cases]
-    try:
-        outs = vc.impl_parallel(["schema"], lines, shards=16, timeout=600)
-    except RuntimeError:
-        outs = []
-        for l in lines:
-            try:
-                outs.append(vc.impl(["schema"], [l], timeout=30)[0])
-            except RuntimeError:
-                outs.append(json.dumps(["CRASH", "CRASH", "CRASH", "CRASH"]))
+    outs = vc.impl_isolating(["schema"], lines, 4)
     nchk = 0
     for (label, c, want, tag), o in zip(cases, outs):
         r = json.loads(o)
